@@ -33,6 +33,8 @@ pub enum Op {
     Get { view: usize },
     Subscribe { view: usize },
     SubscribeReader { reader: usize },
+    /// `resolve_locale_with_options` called somewhere below live contexts, with its own options
+    Resolve { ctx: usize, enable_cookie: bool, cookie_name: Option<String> },
     Dispose { ctx: usize },
     Step { k: usize },
     Flush,
@@ -53,6 +55,7 @@ impl Op {
             Op::Get { view } => json!({"op": "get", "view": view}),
             Op::Subscribe { view } => json!({"op": "subscribe", "view": view}),
             Op::SubscribeReader { reader } => json!({"op": "subscribe_reader", "reader": reader}),
+            Op::Resolve { ctx, enable_cookie, cookie_name } => json!({"op": "resolve", "ctx": ctx, "enable_cookie": enable_cookie, "cookie_name": cookie_name}),
             Op::Dispose { ctx } => json!({"op": "dispose", "ctx": ctx}),
             Op::Step { k } => json!({"op": "step", "k": k}),
             Op::Flush => json!({"op": "flush"}),
@@ -75,6 +78,7 @@ impl Op {
             "get" => Op::Get { view: u("view") },
             "subscribe" => Op::Subscribe { view: u("view") },
             "subscribe_reader" => Op::SubscribeReader { reader: u("reader") },
+            "resolve" => Op::Resolve { ctx: u("ctx"), enable_cookie: v["enable_cookie"].as_bool().unwrap_or(true), cookie_name: name("cookie_name") },
             "dispose" => Op::Dispose { ctx: u("ctx") },
             "step" => Op::Step { k: u("k") },
             "flush" => Op::Flush,
@@ -185,7 +189,13 @@ pub fn generate(rng: &mut Rng, ows: bool) -> Plan {
                 5 => Op::SetUntracked { view: rng.below(8), l: rng.below(5) },
                 6 => Op::WriteWired { sig: rng.below(3), l: rng.below(5) },
                 7 => Op::MakeReader { view: rng.below(8), which: rng.below(12) },
-                8 => Op::Read { reader: rng.below(8) },
+                8 => {
+                    if rng.chance(1, 2) {
+                        Op::Resolve { ctx: rng.below(4), enable_cookie: rng.chance(4, 5), cookie_name: if rng.chance(1, 3) { Some(rng.pick(COOKIE_NAMES).to_string()) } else { None } }
+                    } else {
+                        Op::Read { reader: rng.below(8) }
+                    }
+                }
                 9 => {
                     if rng.chance(1, 2) {
                         Op::SubscribeReader { reader: rng.below(8) }
@@ -680,6 +690,31 @@ pub fn execute(plan: &Plan, rng: &mut Rng) -> Outcome {
                     }
                     _ => executed = false,
                 },
+                Op::Resolve { ctx, enable_cookie, cookie_name } => {
+                    // documented as equivalent to `init_i18n_context().get_locale_untracked()` for the same options:
+                    // cookie (if enabled and valid) > Accept-Language > default, whatever contexts exist around the call
+                    let owner = pick_mod(&page.live_ctxs(), *ctx).map(|c| page.ctxs[c].owner.clone()).unwrap_or_else(|| root.clone());
+                    let name = cookie_name.clone().unwrap_or_else(|| DEFAULT_COOKIE.to_string());
+                    let mut opts = I18nContextOptions::<Locale>::default().enable_cookie(*enable_cookie).cookie_options(page.cookie_opts()).ssr_lang_header_getter(page.locale_opts());
+                    if let Some(n) = cookie_name {
+                        opts = opts.cookie_name(n.clone());
+                    }
+                    let from_cookie = if *enable_cookie { cookie_locale(&page.cookie_header, &name) } else { None };
+                    let (want, src) = match from_cookie {
+                        Some(l) => (l, "cookie"),
+                        None => (resolve_header(&page.accept), "accept-language/default"),
+                    };
+                    match guarded(|| owner.with(|| leptos_i18n::locale::resolve_locale_with_options(opts))) {
+                        Ok(l) if loc_index(l) == want => stats.probe("resolve_locale_below_contexts_checked"),
+                        Ok(l) => violations.push(Violation {
+                            property: "C15",
+                            invariant: "resolve_locale_api",
+                            signature: format!("resolve_locale_with_options below existing contexts: expected the locale from {src}"),
+                            detail: format!("Cookie: {:?} (name {name:?}, enabled {enable_cookie}), Accept-Language: {:?} -> expected {}, got {}", page.cookie_header, page.accept, LOCS[want], LOCS[loc_index(l)]),
+                        }),
+                        Err(msg) => violations.push(Violation { property: "C15", invariant: "no_panic", signature: "resolve_locale_with_options panicked".into(), detail: msg }),
+                    }
+                }
                 Op::Dispose { ctx } => {
                     let cands: Vec<usize> = page.live_ctxs().into_iter().filter(|c| page.ctxs[*c].is_sub && page.ctxs[*c].parent.is_some()).collect();
                     match pick_mod(&cands, *ctx) {
